@@ -326,6 +326,7 @@ func CmdCheck(args []string) int {
 		"havocked_calls":           pick(notes, "havoc:"),
 		"lemmas_used":              pick(notes, "lemma used:"),
 		"samples":                  samples,
+		"slowest":                  slowestObls(vcs, 8),
 		"load_s":                   round3(loadSecs),
 		"packages":                 pats,
 	}
@@ -435,4 +436,23 @@ func (e *Engine) replayObligation(verifDir, prop string, v *VC, o *Obl) (string,
 		}
 	}
 	return writeReplay(verifDir, prop, o.Name, b.String()), reproduced
+}
+
+// slowestObls lists the obligations that took the solvers longest (a watch list:
+// what is close to the time limit is what can turn into a spurious alarm).
+func slowestObls(vcs []*VC, n int) []map[string]interface{} {
+	var all []*Obl
+	for _, v := range vcs {
+		for _, o := range v.obls {
+			if !o.Cover {
+				all = append(all, o)
+			}
+		}
+	}
+	sort.Slice(all, func(i, j int) bool { return all[i].Secs > all[j].Secs })
+	var out []map[string]interface{}
+	for i := 0; i < len(all) && i < n; i++ {
+		out = append(out, map[string]interface{}{"obligation": all[i].Name, "solver": all[i].Solver, "seconds": round3(all[i].Secs)})
+	}
+	return out
 }
